@@ -69,7 +69,8 @@ type caseRecord struct {
 	Case   *pCase             `json:"case"`
 	Dir    string             `json:"dir,omitempty"`
 	Runs   map[string]*runObs `json:"runs"`
-	Build  string             `json:"prebuild"` // "" = the concretised project compiles before gleece is involved
+	Build    string           `json:"prebuild"` // "" = the concretised project compiles before gleece is involved
+	Validate *vResult         `json:"validate,omitempty"`
 	Notes  []string           `json:"notes,omitempty"`
 }
 
@@ -331,6 +332,7 @@ type pipePlan struct {
 	Orders    []string // VERIF_ORDER schedules to replay, C13
 	Prebuild  bool     // compile the concretised project first (self-check)
 	SubCmds   []string // extra sub-commands to run (C14): "generate spec", "generate routes", "dump ..."
+	Validate  bool     // in-process GenerateGraph + Validate with range measurements (C10, C18)
 }
 
 func (r *runner) runCase(work string, pc *pCase, plan pipePlan, keep bool) *caseRecord {
@@ -369,6 +371,26 @@ func (r *runner) runCase(work string, pc *pCase, plan pipePlan, keep bool) *case
 		rec.Build = goBuild(dir, pk...)
 	}
 	routesOut, specOut := effOut(pc.Cfg)
+	if plan.Validate {
+		self, _ := os.Executable()
+		ctx, cancel := context.WithTimeout(context.Background(), r.timeout)
+		cmd := exec.CommandContext(ctx, self, "pipe-validate1", "--dir", dir)
+		cmd.Env = append(os.Environ(), "GOFLAGS=-mod=mod", "GOPROXY=off")
+		out, err := cmd.CombinedOutput()
+		cancel()
+		if vr, perr := parseVResult(string(out)); perr == nil {
+			rec.Validate = vr
+		} else {
+			msg := string(out)
+			if len(msg) > 600 {
+				msg = msg[len(msg)-600:]
+			}
+			rec.Validate = &vResult{Stage: "crash", Err: fmt.Sprintf("%v: %s", err, msg), Diags: []vDiag{}}
+			if strings.Contains(msg, "panic:") || strings.Contains(msg, "goroutine ") {
+				rec.Validate.Panic = msg
+			}
+		}
+	}
 	if plan.Main {
 		rec.Runs["main"] = r.runCLI(dir, "generate spec-and-routes", "gleece.config.json", routesOut, specOut, "")
 		// self-check of the concretiser, only when the failure smells like a project that does not compile
@@ -432,6 +454,7 @@ func pipeRun(args []string) error {
 	orders := fs.String("orders", "", "'|'-separated VERIF_ORDER values")
 	subcmds := fs.String("subcmds", "", "'|'-separated extra sub-commands")
 	prebuild := fs.Bool("prebuild", true, "")
+	validate := fs.Bool("validate", true, "")
 	timeout := fs.Int("timeout", 60, "seconds per CLI run")
 	fs.Parse(args)
 	cases, err := loadCases(*casesPath)
@@ -442,7 +465,7 @@ func pipeRun(args []string) error {
 		cases = cases[:*limit]
 	}
 	r := &runner{gleece: *gleece, repo: *repo, timeout: time.Duration(*timeout) * time.Second}
-	plan := pipePlan{Main: true, Alt: *alt, Repeat: *repeat, Prebuild: *prebuild}
+	plan := pipePlan{Main: true, Alt: *alt, Repeat: *repeat, Prebuild: *prebuild, Validate: *validate}
 	if *orders != "" {
 		plan.Orders = strings.Split(*orders, "|")
 	}
